@@ -353,7 +353,9 @@ ASSUMPTIONS_COMMON = [
     'A-ext: bodies never entered: pest/pest_consume parser, serde, format!/Display (message wording not decided), iso_currency, std::fs, clap, typst, tokio, rmcp',
     'spec functions in spec/*.rs are a faithful reading of the property text',
 ]
-ASSUMPTIONS = {}
+_A_FMT = 'A-fmt (units plain, format): format!/write!/writeln! are functions of their template pieces and arguments (shim/fmt.rs): a String built by format! is the concatenation of literal text, `{}` arguments as shown by Display and arguments under a format spec as an uninterpreted function of the shown text; a text written line by line is viewed as its sequence of records (the shown arguments of each writeln!, literal wording excluded); trailing white space / a final line feed do not change the records; str::split yields uninterpreted pieces; Vec::dedup an uninterpreted shorter sequence'
+_A_PLAIN = 'cross-unit contracts used in unit plain without being re-proved there: Disposal::net_gain_or_loss / total_allowable_cost, TaxYearSummary::disposal_count / gross_proceeds / taxable_gain (proved in unit calc), round_gbp (proved in unit format); format_gbp, format_decimal_trimmed, format_date, format_price, format_currency_amount, format_tax_year are uninterpreted functions of the value shown'
+ASSUMPTIONS = {'C16': [_A_FMT, _A_PLAIN], 'C17': [_A_FMT, _A_PLAIN], 'C15': [_A_FMT]}
 
 
 def write_replay(pid, ob, runs):
